@@ -9,6 +9,7 @@
 //   /file/<tag>              serveFile of a scratch file (content pattern(tag, size))
 //   /tmo/<ms>/<tag>          arms the response time-out and never replies (the framework answers 408)
 //   /tmoreply/<ms>/<tag>     arms the response time-out, then replies at once (the timer must be disarmed and released)
+//   /tmoasync/<ms>/<tag>     the ResponseWriter is handed to an application thread, which arms the response time-out there and never replies
 //   /never/<tag>             keeps the ResponseWriter and never replies
 #pragma once
 #include <pistache/endpoint.h>
@@ -66,6 +67,7 @@ struct Opts {
     i64 body_timeout_ms = 60000;
     int port = 9080;
     i64 app_delay_ns = 0;
+    i64 app_gather_ns = 0; // > 0: the application thread lets jobs pile up for this long, then handles all of them back to back
 };
 
 struct World;
@@ -73,7 +75,8 @@ struct World;
 struct Job {
     std::unique_ptr<Http::ResponseWriter> writer;
     std::string body;
-    SendRec* rec;
+    SendRec* rec = nullptr;
+    long tmo_ms = 0; // > 0: the application thread arms the response time-out and keeps the writer (never replies)
 };
 
 struct World {
@@ -231,6 +234,12 @@ public:
             j.rec = w_->new_send(fd, req.resource());
             std::lock_guard<std::mutex> g(w_->jobs_mtx);
             w_->jobs.push_back(std::move(j));
+        } else if (kind == "tmoasync" && parts.size() >= 3) {
+            Job j;
+            j.writer = std::make_unique<Http::ResponseWriter>(std::move(response));
+            j.tmo_ms = std::max(1L, atol(parts[1].c_str()));
+            std::lock_guard<std::mutex> g(w_->jobs_mtx);
+            w_->jobs.push_back(std::move(j));
         } else if (kind == "stream" && parts.size() >= 4) {
             int k = atoi(parts[1].c_str());
             size_t n = static_cast<size_t>(atol(parts[2].c_str()));
@@ -305,20 +314,41 @@ inline void World::start(const Opts& o)
     ep->serveThreaded();
     app = std::thread([this] {
         sim::set_self_name("app");
+        bool gathered = false;
         for (;;) {
             const std::function<bool()> pred = [this] { return stop_app || !jobs.empty(); };
             sim::block_until(pred, -1, "app.wait");
+            bool stopping;
+            {
+                std::lock_guard<std::mutex> g(jobs_mtx);
+                stopping = stop_app;
+            }
+            if (opts.app_gather_ns > 0 && !gathered && !stopping) {
+                sim::sleep_ns(opts.app_gather_ns);
+                gathered = true;
+            }
             Job job;
             {
                 std::lock_guard<std::mutex> g(jobs_mtx);
                 if (jobs.empty()) {
                     if (stop_app) return;
+                    gathered = false;
                     continue;
                 }
                 job = std::move(jobs.front());
                 jobs.pop_front();
             }
-            if (opts.app_delay_ns > 0) sim::sleep_ns(opts.app_delay_ns);
+            if (opts.app_delay_ns > 0 && opts.app_gather_ns == 0) sim::sleep_ns(opts.app_delay_ns);
+            if (job.tmo_ms > 0) {
+                try {
+                    job.writer->timeoutAfter(std::chrono::milliseconds(job.tmo_ms));
+                } catch (const std::exception& e) {
+                    sim::logf("timeoutAfter threw: %s", e.what());
+                }
+                std::lock_guard<std::mutex> g(held_mtx);
+                held.push_back(std::move(job.writer));
+                continue;
+            }
             try {
                 World::track(job.writer->send(Http::Code::Ok, job.body), job.rec);
             } catch (const std::exception& e) {
